@@ -9,7 +9,7 @@ import (
 
 func init() {
 	registry["C06"] = entry{run: c06.Run, replay: func(r *monitor.Run, d json.RawMessage) { c06.Replay(r, d) }, level: "exploration",
-		rule: "cases = inputs of packets.Reader.ReadPacket (versions 3, 4, 5 via SetVersion), all seeded, fixed counts per tier: " +
+		rule: "cases = inputs of packets.Reader.ReadPacket (versions 3, 4, 5 via SetVersion), all seeded, fixed counts per tier:  Plus retention (hundreds of packets decoded from one Reader, kept, compared afterwards) and encodings right after a Pack whose writer broke." +
 			"(i) well-formed values of all 15 packet types x v3.1/v3.1.1/v5 (every v5 property drawn with p=1/3, all of them in 10% of the values; short and long v5 ack/DISCONNECT/AUTH forms) encoded by the independent codec mqttx; " +
 			"(ii) mutants of those bytes (random draws plus a systematic catalogue of every mutation kind and every string field x forbidden content class per type and version): truncation at every offset, remaining length -1/+1/0/max, non-canonical and 5..7-byte length fields, flag/type bits, bit flips, inserts/deletes/splices/glued packets, duplicated/misplaced/unknown/truncated properties, property-length edits, ill-formed UTF-8, U+0000, control characters, invalid topic names and filters, QoS 3, wrong protocol name/level, packet id 0, invalid reason codes; " +
 			"(iii) raw random byte strings of length 0..64 with biased first byte and length field; (iv) bombs: at most 8 bytes declaring up to 268,435,455 remaining bytes or huge string/property lengths. " +
